@@ -475,7 +475,7 @@ class Ev:
     def s_Assert(self, st):
         c = self.ev(st.test)
         self.emit("assert", st, value=c)
-        self.guards = self.guards + (canon_guard(c, True),)
+        self.guards = self.guards + split_guard(c, True)
 
     def s_If(self, st):
         # canonical orientation: `if not c: B else: A`, `if a != b: B else: A` and `if c: A else: B` produce the same
@@ -486,13 +486,13 @@ class Ev:
         env0 = dict(self.env)
         fwd0 = dict(self.fwd)
         g0 = self.guards
-        self.guards = g0 + ((c, True),)
+        self.guards = g0 + split_guard(c, True)
         self.block(body)
         env1 = self.env
         fwd1 = self.fwd
         self.env = dict(env0)
         self.fwd = dict(fwd0)
-        self.guards = g0 + ((c, False),)
+        self.guards = g0 + split_guard(c, False)
         self.block(orelse)
         env2 = self.env
         fwd2 = self.fwd
@@ -506,10 +506,10 @@ class Ev:
         t1, t2 = terminates(body), terminates(orelse)
         if t1 and not t2:
             self.env = env2
-            self.guards = g0 + ((c, False),)
+            self.guards = g0 + split_guard(c, False)
         elif t2 and not t1:
             self.env = env1
-            self.guards = g0 + ((c, True),)
+            self.guards = g0 + split_guard(c, True)
         else:
             merged = {}
             for k in set(env1) | set(env2):
@@ -1209,6 +1209,19 @@ def canon_guard(c: "P", pol: bool):
         if a and a[0] in ("ne", "notin", "isnot", "le"):
             c, pol = negate(c), not pol
         return c, pol
+
+
+def split_guard(c: "P", pol: bool):
+    """The atomic guards a compound condition stands for:  (a and b) holding is a holding and b holding;  (a or b) failing is a
+    failing and b failing.  `if a or b: continue` therefore dominates what follows like `if a: continue` + `if b: continue`."""
+    c, pol = canon_guard(c, pol)
+    a = c.as_atom()
+    if a and ((a[0] == "and" and pol) or (a[0] == "or" and not pol)):
+        out = ()
+        for item in a[1]:
+            out = out + split_guard(item, pol)
+        return out
+    return ((c, pol),)
 
 
 def negate(v: P) -> P:
